@@ -147,7 +147,8 @@ def build_harness(release=False):
         with open(os.path.join(HARNESS, "Cargo.toml.in")) as f:
             tmpl = f.read()
         feats = '"verif-hooks"' if hooks_available() else ""
-        text = tmpl.replace("@REPO@", os.path.abspath(REPO)).replace("@FEATURES@", feats)
+        text = (tmpl.replace("@REPO@", os.path.abspath(REPO)).replace("@FEATURES@", feats)
+                .replace("@HFEATURES@", '"hooks"' if feats else ""))
         cargo_toml = os.path.join(HARNESS, "Cargo.toml")
         old = open(cargo_toml).read() if os.path.exists(cargo_toml) else None
         if old != text:
@@ -476,6 +477,7 @@ def load_known(pid):
 
 def write_replay(pid, n, payload):
     os.makedirs(REPLAY, exist_ok=True)
+    payload.setdefault("repo", os.path.abspath(REPO))
     path = os.path.join(REPLAY, f"{pid}-{n}.json")
     with open(path, "w") as f:
         json.dump(payload, f, indent=1)
@@ -507,6 +509,14 @@ def check(pid, tier, seed):
             thm_failures.append(("<source scan>", "forbidden tokens: " + "; ".join(hits[:5])))
         if build_log and thm_failures:
             log(build_log[-3000:])
+        if tier == "thorough" and not thm_failures:
+            # independent re-check of the compiled proof terms by the toolchain's own checker
+            with Lock("lake"):
+                rc_lc, out_lc, err_lc = sh(["lake", "env", "leanchecker", module], cwd=LEAN, check=False,
+                                           timeout=3600)
+            coverage["leanchecker"] = "ok" if rc_lc == 0 else (out_lc + err_lc)[-500:]
+            if rc_lc != 0:
+                thm_failures.append(("<leanchecker>", f"leanchecker rejected {module}"))
     rc, out = lake_build(["emlmodel"])
     if rc != 0:
         raise MachineryError("lake build emlmodel failed:\n" + out[-4000:])
@@ -533,6 +543,8 @@ def check(pid, tier, seed):
     samples = []
     if corr is not None:
         ops = corr["ops_list"]
+        # concrete failing inputs (obs / crash) are reported before aux-only disagreements
+        corr["mismatches"].sort(key=lambda m: (0 if m["kind"] in ("obs", "crash") else 1, m["line"]))
         for m in corr["mismatches"]:
             k = m["line"]
             s = segment_of(ops, k)
@@ -641,8 +653,11 @@ def check(pid, tier, seed):
     ev = {"property_id": pid, "tier": tier, "seed": seed, "level": level, "coverage": coverage,
           "assumptions": assumptions, "wall_s": round(time.time() - t0, 2), "violations": len(violations),
           "known_findings_reported": len(known_lines), "repo": os.path.abspath(REPO)}
-    os.makedirs(EVIDENCE, exist_ok=True)
-    with open(os.path.join(EVIDENCE, pid + ".json"), "w") as f:
+    # evidence under /verif/evidence is only ever written by runs against /repo itself; runs
+    # against a scratch checkout (EASYML_REPO, used for seeded changes) write elsewhere
+    ev_dir = EVIDENCE if os.path.abspath(REPO) == "/repo" else os.path.join(WORK, "evidence-scratch")
+    os.makedirs(ev_dir, exist_ok=True)
+    with open(os.path.join(ev_dir, pid + ".json"), "w") as f:
         json.dump(ev, f, indent=1)
 
     for l in sorted(set(known_lines)):
@@ -658,10 +673,10 @@ def check(pid, tier, seed):
 def replay(path):
     payload = json.load(open(path))
     pid = payload["property"]
-    if "ops" not in payload:
+    if "ops" not in payload or payload.get("replay_argv"):
         log(json.dumps(payload, indent=1))
         if payload.get("replay_argv"):
-            rc, out, err = sh(payload["replay_argv"], cwd=ROOT, check=False)
+            rc, out, err = sh(payload["replay_argv"] + [os.path.abspath(path)], cwd=ROOT, check=False)
             log(out + err)
             return rc
         return 0
